@@ -1,6 +1,8 @@
 (* C01 - Incremental builds produce exactly what a clean build produces.
    Statement, refutation (directory outputs: the path hash of a directory ignores entry names, and
    moveOutput keeps the old output when the hashes are equal), and the partial theorems. *)
+(* Proof.Engine_Gen: the record layout / needsBuilding order / cache-key parts regenerated from the source *)
+From PlzV Require Import Proof.Engine_Gen.
 From PlzV Require Import Base.Harness Model.Engine Model.C01 Proof.Engine Proof.C03 Proof.C01.
 
 (* After any history of edits (each tree followed by `plz build` of any request; rm -rf plz-out at any
